@@ -599,6 +599,7 @@ META = {
             "permutations, which decides every pair of the universe in both directions; canonical graphs must coincide within a class; "
             "graph_diff laws and skolemise round trip are checked on explicit pairs / every graph.",
     "note": "Small scope (<=6 blank nodes, one or two predicates); oracle = brute-force permutation search written for this check; SHA-256 "
-            "collisions out of scope.",
+            "collisions out of scope. Decorated universe: 13 decorations incl. one text as plain / @en / @fr / xsd:string / IRI-valued literal; "
+            "graph_diff and isomorphic() also on two graphs that carry one identifier.",
     "technique": "exhaustive enumeration of graph universes; digest partition vs brute-force isomorphism partition",
 }
